@@ -603,9 +603,15 @@ int main(int argc, char **argv) {
     bool f = true;
     for (auto &G : M->globals()) {
       if (G.getName().startswith("llvm.")) continue;
-      if (G.getName().startswith(".str") || G.getName().startswith("__PRETTY_FUNCTION__") ||
-          G.getName().startswith("__func__"))
-        continue;
+      if (G.getName().startswith("__PRETTY_FUNCTION__") || G.getName().startswith("__func__")) continue;
+      if (G.getName().startswith(".str")) {
+        // string literals: short ones only (names of environment variables, dlsym symbols), not message texts
+        bool keep = false;
+        if (G.hasInitializer())
+          if (auto *CDA = dyn_cast<ConstantDataArray>(G.getInitializer()))
+            keep = CDA->isString() && CDA->getNumElements() <= 40;
+        if (!keep) continue;
+      }
       if (!f) out << ",";
       f = false;
       out << "\n" << esc(G.getName()) << ":{\"ty\":" << esc(tystr(G.getValueType()))
